@@ -22,6 +22,7 @@ from concurrent.futures import ThreadPoolExecutor
 from lib import core
 
 DRIVER = "drv_plannerproto"
+LEAN_TARGETS = ["OmplModel.Props.C03", DRIVER]
 F = core.f2bits
 
 GEOMETRIC = ["RRT", "RRTConnect", "RRTstar", "InformedRRTstar", "SORRTstar", "RRTsharp", "RRTXstatic", "LazyRRT", "TRRT",
@@ -97,6 +98,9 @@ def histories(tier):
                                      "solve %d" % K],
         "clear-newpd": lambda k, K: [q("setpd", QA), "solve %d" % k, "clear", q("setpd", QB), "solve %d" % K, "getpd"],
         "newpd": lambda k, K: [q("setpd", QA), "solve %d" % K, q("setpd", QB), "getpd", "solve %d" % k, "solve %d" % K],
+        # a FRESH problem definition object of the same query, no clear(): whatever the planner still believes about
+        # the old object's solution list must not leak into the status
+        "newpd-same-noclear": lambda k, K: [q("setpd", QA), "solve %d" % K, q("setpd", QA), "solve %d" % k, "solve %d" % K],
         "swap": lambda k, K: [q("setpd", QA), "solve %d" % K, "clear", q("setsg", QSWAP), "solve %d" % k, "solve %d" % K],
         "invalid-start": lambda k, K: [q("setpd", QINV), "solve %d" % k, "addstart " + pt(QA[0]), "solve %d" % k,
                                        "solve %d" % K],
@@ -110,7 +114,7 @@ def histories(tier):
                                          "solve %d" % K, "clear", "getpd", "solve %d" % k],
             "clear-first": lambda k, K: [q("setpd", QA), "clear", "getpd", "solve %d" % k, "clear", "clear", "solve %d" % k],
             "newpd-same": lambda k, K: [q("setpd", QA), "solve %d" % k, q("setpd", QA), "clear", "solve %d" % k,
-                                        "clearsol", "solve %d" % K],
+                                        "solve %d" % K],
             "addstart": lambda k, K: [q("setpd", QA), "solve %d" % k, "addstart " + pt(QB[0]), "solve %d" % k, "getpd",
                                       "solve %d" % K],
         })
@@ -569,8 +573,8 @@ def run(ck):
                        "or addStartState between solves (the one change a resumed solve documents)",
                        "multi-threaded planners (pRRT, pSBL, CForest, AnytimePathShortening) are judged on status/leak/crash clauses only",
                        "validity of path motions is C01's property; it is counted here (motion-invalid) but not judged"]
-    ck.lean_build(["OmplModel.Props.C03", DRIVER])
-    ck.audit()
+    ck.lean_build(LEAN_TARGETS)
+    ck.audit(roots=["Drv.PlannerProto"])
     if ck.tier == "thorough" and ck.lean_ok:
         ck.leanchecker(["OmplModel.Props.C03"])
     hbin = ck.build_harness("proto", ["proto.cpp"], link_ompl=True)
